@@ -295,6 +295,10 @@ def rand_request(rng, cfg, maxc=1048576, maxk=1048576, framing=None, method=None
     nlines_budget = cfg.hn
     total_budget = cfg.hl
     req = Request(method, target, version, line_eol=rand_eol(rng, cfg), blank_eol=rand_eol(rng, cfg))
+    if rng.chance(1, 4) and cfg.ws >= 1:
+        # runs of blanks before AND after the target, each within the whitespace limit on its own
+        req.sp1 = rng.bytes(rng.choice([1, cfg.ws, max(1, cfg.ws - 1), rng.range(1, cfg.ws)]), b" \t")
+        req.sp2 = rng.bytes(rng.choice([1, cfg.ws, max(1, cfg.ws - 1), rng.range(1, cfg.ws)]), b" \t")
 
     def add(h):
         nonlocal nlines_budget, total_budget
@@ -386,6 +390,10 @@ def rand_response(rng, cfg, framing=None, small=False):
     headers = []
     nl, tb = cfg.hn, cfg.hl
     resp = Response(status, reason, version, line_eol=rand_eol(rng, cfg), blank_eol=rand_eol(rng, cfg))
+    if rng.chance(1, 4) and cfg.ws >= 1:
+        # runs of blanks before the status AND before the reason, each within the whitespace limit on its own
+        resp.sp = rng.bytes(rng.choice([1, cfg.ws, max(1, cfg.ws - 1), rng.range(1, cfg.ws)]), b" \t")
+        resp.sp2 = rng.bytes(rng.choice([1, cfg.ws, max(1, cfg.ws - 1), rng.range(1, cfg.ws)]), b" \t")
 
     def add(h):
         nonlocal nl, tb
